@@ -216,7 +216,9 @@ void brngHMACStart(void* state, const octet key[], size_t key_len,
 	if ((s->iv_len = iv_len) <= 64) 
 	{
 		memCopy(s->iv_buf, iv, iv_len);
-		s->iv = s->iv_buf;
+		// указатель на iv_buf в состоянии не сохраняется:
+		// состояние можно копировать как фрагмент памяти
+		s->iv = 0;
 	}
 	else
 		s->iv = iv;
@@ -256,7 +258,7 @@ void brngHMACStepR(void* buf, size_t count, void* state)
 		beltHMACStepA(s->r, 32, s->state_ex);
 		beltHMACStepG(s->r, s->state_ex);
 		// Y_t <- beltHMAC(key, r || iv)
-		beltHMACStepA(s->iv, s->iv_len, s->state_ex);
+		beltHMACStepA(s->iv ? s->iv : s->iv_buf, s->iv_len, s->state_ex);
 		beltHMACStepG(buf, s->state_ex);
 		// next
 		buf = (octet*)buf + 32;
@@ -270,7 +272,7 @@ void brngHMACStepR(void* buf, size_t count, void* state)
 		beltHMACStepA(s->r, 32, s->state_ex);
 		beltHMACStepG(s->r, s->state_ex);
 		// Y_t <- left(beltHMAC(key, r || iv))
-		beltHMACStepA(s->iv, s->iv_len, s->state_ex);
+		beltHMACStepA(s->iv ? s->iv : s->iv_buf, s->iv_len, s->state_ex);
 		beltHMACStepG(s->block, s->state_ex);
 		memCopy(buf, s->block, count);
 		// next
